@@ -111,13 +111,24 @@ def readMD (data : Bytes) : Option MD := (readMDPairs data).map mimeHeader
 
 def hostKey : Bytes := [72, 111, 115, 116]
 
-/-- net/http server, header block of a request (everything after the request line, blank line included):
+/- net/http server, header block of a request (everything after the request line, blank line included):
     `none` = 400 Bad Request.  `httpguts.ValidHeaderFieldName` rejects the keys with a SP that textproto lets through;
     `Host` is moved to `r.Host`. -/
+/-- x/net/http/httpguts `validHostByte` -/
+def validHostByte (c : UInt8) : Bool :=
+  (48 ≤ c && c ≤ 57) || (97 ≤ c && c ≤ 122) || (65 ≤ c && c ≤ 90) ||
+  [33,36,37,38,39,40,41,42,43,44,45,46,58,59,61,91,93,95,126].contains c
+
+/-- HTTP/1.1: exactly one `Host` line, its value made of host bytes ("missing required / too many / malformed Host header") -/
+def hostOK (ps : List (Bytes × Bytes)) : Bool :=
+  match (ps.filter (fun p => canonKey p.1 == hostKey)).map (·.2) with
+  | [h] => h.all validHostByte
+  | _ => false
+
 def serverPairs (block : Bytes) : Option (List (Bytes × Bytes)) :=
   match readPairs (wireLines block) with
   | none => none
-  | some ps => if ps.all (fun p => p.1.all validTok) then some ps else none
+  | some ps => if ps.all (fun p => p.1.all validTok) && hostOK ps then some ps else none
 
 def serverHeader (block : Bytes) : Option MD :=
   (serverPairs block).map (fun ps => (mimeHeader ps).filter (fun e => !(e.1 == hostKey)))
